@@ -1,5 +1,5 @@
 // placeholders until the workloads exist
 #include "props.h"
-Case gen_C09(uint64_t, long, const GenCfg &, const char *) { return Case(); } RunOutcome exec_C09(const Case &) { return RunOutcome(); }
+
 
 Case gen_C20(uint64_t, long, const GenCfg &, const char *) { return Case(); } RunOutcome exec_C20(const Case &) { return RunOutcome(); }
